@@ -45,6 +45,12 @@ class Ctx:
     def own_nodes(self, f: FuncInfo):
         return self.I.own_nodes(f)
 
+    def inl(self, f: FuncInfo, want=None) -> FuncInfo:
+        """f with its statement-level calls of small same-module helpers written out (see sa/inline.py)."""
+        from ..inline import inline
+
+        return inline(self, f, want)
+
     def loc(self, f_or_m, node: ast.AST) -> str:
         m = f_or_m.module if isinstance(f_or_m, FuncInfo) else f_or_m
         return f"{m.relpath}:{getattr(node, 'lineno', 0)}"
